@@ -9,6 +9,7 @@ mod progs;
 mod oracles;
 mod refscan;
 mod runner;
+mod sched;
 
 use runner::{run_family, RunOpts, WorkerArgs};
 use serde_json::{json, Value};
